@@ -189,7 +189,7 @@ Proof.
       * eapply body_res_frame; [exact F|]. apply IH. eapply Frame_LinH; eauto.
       * apply body_res_stop; auto.
     + (* SYield *)
-      apply body_res_stop; auto with fr.
+      apply body_res_stop; auto. fr_auto.
     + (* SSpawn *)
       destruct (nmem b (w_created w) || negb (cf_spawn (e_cfg e))) eqn:G; [now apply IH|].
       apply orb_false_iff in G as [G _].
